@@ -8,7 +8,8 @@ Local Open Scope Z_scope.
    x -> if tick(ID,x) = F then throw("boom") else x*A+B                              (Dfn1)
    x -> if tick(ID,x) = F then throw("boom") else <x > T | x = T | x % M = R>        (Dpr1)
    (a,b) -> if tickS(ID,a,b) = F then throw("boom") else a*P+b*Q+C                   (Dfn2; tick2 returns a, tick2b returns b)
-   (a,b) -> if tickS(ID,a,b) = F then throw("boom") else (a-a%D) = (b-b%D)           (Dpr2)
+   (a,b) -> if tickS(ID,a,b) = F then throw("boom") else (a-a%D) = (b-b%D)           (Dpr2, D > 0)
+   (a,b) -> if tickS(ID,a,b) = F then throw("boom") else a<b                        (Dpr2, D = 0)
    F absent: the comparison is made with a value no element takes. *)
 Inductive dfn1 := Dfn1 (fail : option Z) (a b : Z).
 Inductive dpk := DGt (t : Z) | DEq (t : Z) | DMod (m r : Z).
@@ -40,6 +41,7 @@ Definition den_fn2 (d : dfn2) : fn2 :=
 Definition den_pr2 (d : dpr2) : pr2 :=
   match d with
   | Dpr2 f sel dd => fun a b => if fails f (if sel then b else a) then Err e_throw
+                                else if dd =? 0 then Ok (a <? b)        (* d = 0 encodes the order closure of merge: a<b *)
                                 else Ok ((a - Z.rem a dd) =? (b - Z.rem b dd))
   end.
 
@@ -53,7 +55,8 @@ Inductive dstage :=
 | DSkip (n : Z)
 | DTop (n : Z).
 
-Inductive dpipe := DNumbers (n : Z) | DList (l : list Z) | DStage (s : dstage) (p : dpipe) | DApp (p q : dpipe).
+Inductive dpipe := DNumbers (n : Z) | DList (l : list Z) | DStage (s : dstage) (p : dpipe) | DApp (p q : dpipe)
+| DCross (id : N) (g : dfn2) (p q : dpipe) | DMerge (id : N) (less : dpr2) (p q : dpipe).
 
 Inductive dterm :=
 | DTNone | DTFirst | DTSingle | DTSize
@@ -78,6 +81,8 @@ Fixpoint den_pipe (p : dpipe) : pipe :=
   | DList l => PList l
   | DStage s p' => PStage (den_stage s) (den_pipe p')
   | DApp p1 p2 => PApp (den_pipe p1) (den_pipe p2)
+  | DCross id g p1 p2 => PCross id (den_fn2 g) (den_pipe p1) (den_pipe p2)
+  | DMerge id e p1 p2 => PMerge id (den_pr2 e) (den_pipe p1) (den_pipe p2)
   end.
 
 Definition den_term (t : dterm) : term :=
